@@ -9,7 +9,7 @@ CONFIG = {
     "drivers": [
         {"name": "electdrv",
          "quick": ["-cases", "6000", "-epochs", "4"],
-         "thorough": ["-cases", "60000", "-epochs", "6"],
+         "thorough": ["-cases", "40000", "-epochs", "6"],
          "timeout_quick": 900, "timeout_thorough": 3000},
     ],
     "trusted_base": [
